@@ -4,9 +4,10 @@ P == {"f", "g", "d/h"}
 LF2   == Text(<<"a", "b">>, "lf", TRUE)
 CRLF2 == Text(<<"a", "b">>, "crlf", TRUE)
 NoNL  == Text(<<"a", "b">>, "lf", FALSE)
+CRLFNoNL == Text(<<"a", "b">>, "crlf", FALSE)      \* CRLF between the lines, nothing after the last one
 Rep   == Text(<<"b", "a", "b">>, "lf", TRUE)
 Empty == Text(<<>>, "lf", FALSE)
-FChoices == {Absent, LF2, CRLF2, NoNL, Rep, Empty, Bin, Dir}
+FChoices == {Absent, LF2, CRLF2, NoNL, CRLFNoNL, Rep, Empty, Bin, Dir}
 Inits == {[p \in P |-> CASE p = "f" -> cf [] p = "g" -> cg [] OTHER -> ch] :
               cf \in FChoices, cg \in {Absent, LF2}, ch \in {Absent, NoNL}}
 H(b, a) == [b |-> b, a |-> a]
